@@ -53,6 +53,17 @@ where identAll : List Ty → Bool
   | [] => true
   | t :: ts => t.packIdent cx && identAll ts
 
+/-- the packer expression is the constant `[]`: the element expression is never evaluated -/
+def Ty.constPack : Ty → Bool
+  | .tfix [] => true
+  | _ => false
+
+/-- the unpacker expression is a constant (`()` / `None`) -/
+def Ty.constUnpack : Ty → Bool
+  | .tfix [] => true
+  | .none => true
+  | _ => false
+
 /-- `value.copy()` -/
 def pyCopy : V → R V
   | .coll .list vs => .ok (.coll .list vs)
@@ -209,7 +220,7 @@ def packFirst (O : Oracle) (cx : Cx) (fx : Fx) : List Ty → V → Option V
 def packIdx (O : Oracle) (cx : Cx) (fx : Fx) : List Ty → V → Int → R (List V)
   | [], _, _ => .ok []
   | t :: ts, v, i => do
-      let x ← pyIndexO O v i
+      let x ← (if t.constPack then pure V.none else pyIndexO O v i)
       let a ← pack O cx fx t x
       let r ← packIdx O cx fx ts v (i + 1)
       pure (a :: r)
@@ -217,7 +228,7 @@ def packIdx (O : Oracle) (cx : Cx) (fx : Fx) : List Ty → V → Int → R (List
 def packNT (O : Oracle) (cx : Cx) (fx : Fx) : List (String × Ty) → V → Int → R (List (String × V))
   | [], _, _ => .ok []
   | (n, t) :: fs, v, i => do
-      let x ← pyIndexO O v i
+      let x ← (if t.constPack then pure V.none else pyIndexO O v i)
       let a ← pack O cx fx t x
       let r ← packNT O cx fx fs v (i + 1)
       pure ((n, a) :: r)
@@ -225,7 +236,7 @@ def packNT (O : Oracle) (cx : Cx) (fx : Fx) : List (String × Ty) → V → Int 
 def packReq (O : Oracle) (cx : Cx) (fx : Fx) : List (String × Ty) → V → R (List (V × V))
   | [], _ => .ok []
   | (n, t) :: fs, v => do
-      let x ← pyGetItemStr v n
+      let x ← (if t.constPack then pure V.none else pyGetItemStr v n)
       let a ← pack O cx fx t x
       let r ← packReq O cx fx fs v
       pure ((V.str n, a) :: r)
